@@ -130,3 +130,44 @@ func ZZ_C08_Store() {
 	}
 	vfAssert("later-hits-reach-the-policy", s.policy.hitsInSample > h0)
 }
+
+// ZZ_C08_AtomicLate: the late hand-back (Free) races, at atomic granularity, with readers that fill the ring
+// while the token is out.
+func ZZ_C08_AtomicLate() {
+	l := zzBufNew()
+	for i := 0; i < 16; i++ {
+		l.add() // the 16th returns the batch; the token stays out
+	}
+	j := vfConfig("J", 15)
+	for i := 0; i < j; i++ {
+		l.add()
+	}
+	vfSetAtomicVisible(true)
+	vfSetPreemptions(vfConfig("PRE", 2))
+	K := vfConfig("ADDS", 2)
+	done := make(chan int, 2)
+	go func() {
+		l.b.Free() // late hand-back
+		done <- 1
+	}()
+	go func() {
+		for i := 0; i < K; i++ {
+			if pb := l.add(); pb != nil {
+				l.b.Free()
+			}
+		}
+		done <- 1
+	}()
+	<-done
+	<-done
+	vfSetAtomicVisible(false)
+	vfSetPreemptions(0)
+	vfReach("burst-over")
+	before := l.batches
+	for i := 0; i < 33; i++ {
+		if pb := l.add(); pb != nil {
+			l.b.Free()
+		}
+	}
+	vfAssert("stripe-still-delivers-after-late-free-race", l.batches > before)
+}
